@@ -20,3 +20,7 @@ claim('C05', 'Hypothesis-generated paths and boundary-aimed T values; T2t/point/
       '6k (quick) / 150k (thorough) paths x ~15 T values each, including every cumulative fraction and its ulp neighbours, T one and two ulps below 1, and denormal T; T2t must name the segment owning T (either neighbour within 8 ulp), point(T) must equal that segment at t, t2T must invert; iscontinuous/isclosed/continuous_subpaths compared with a direct recomputation.',
       'Trusts: seg.length() (C06); 8-ulp boundary slack; arcs reproduce their end points only to C04 accuracy.',
       'DESIGN.md 2/C05')
+claim('C06', 'Hypothesis-generated segments/intervals/paths in two configurations (scipy / pure-Python fallback); rigorous subdivision bracket + independent adaptive Gauss-Legendre + additivity',
+      'About 6.5k (quick) / 170k (thorough) length queries over all four segment types with collinear, fold-back, repeated-point, degree-elevated and cusp-like classes and eccentric rotated arcs; each value must be finite, non-negative, inside the [chords, control polygons] bracket, equal to independent quadrature within the stated tolerance, additive over adjacent intervals; path length = sum of segments; run with scipy and with scipy import blocked.',
+      'Trusts: vp/ref/bez_ref.py de Casteljau subdivision; numpy leggauss nodes; the numerical reading of "speed vanishes" (min speed <= 1e-4 max speed); arcs are measured on the library\'s stored centre parameters.',
+      'DESIGN.md 2/C06')
